@@ -108,19 +108,9 @@ def judge(res, wd, tag, jobs, crashes, pid):
         what = "timed out (a step of the real code did not return)" if rc == -999 else "died rc=%d" % rc
         res.violations.append(("B-tree driver %s while running %r: %s" % (what, where, err[-400:]), save(wd, "%s_crash_%d" % (tag, k), [where])))
 
-def validate(res, wd, name, jobs, pid, max_rejections=3):
-    """TLC validates the concatenated event histories against SortedSetAbs; identical histories are validated once.
-    After a rejection the remaining histories are validated in a further run."""
-    seen = {}; uniq = []
-    for i, j in enumerate(jobs):
-        if not j.complete:
-            continue
-        key = json.dumps(j.events, separators=(",", ":"))
-        if key in seen:
-            continue
-        seen[key] = i; uniq.append(i)
-    mult = collections.Counter(seen[json.dumps(j.events, separators=(",", ":"))] for j in jobs if j.complete)
-    res.count("distinct_histories", len(uniq))
+def _validate_shard(wd, name, jobs, uniq, mult, max_rejections=3):
+    """returns (events accepted, executions validated, tlc results, violations, infra errors)"""
+    nev = 0; nexec = 0; tl = []; viol = []; infra = []
     rnd = 0
     while uniq and rnd <= max_rejections:
         events = []; ev_job = []
@@ -128,14 +118,13 @@ def validate(res, wd, name, jobs, pid, max_rejections=3):
             events.append({"e": "reset"}); ev_job.append(i)
             for e in jobs[i].events:
                 events.append(e); ev_job.append(i)
-        acc, consumed, r = tracecheck.validate("SortedSetAbsTrace", events, wd, "%s_%d" % (name, rnd), constants=THREADS, timeout=2400, heap="12g")
+        acc, consumed, r = tracecheck.validate("SortedSetAbsTrace", events, wd, "%s_%d" % (name, rnd), constants=THREADS, timeout=2400,
+                                               heap="6g")
         rnd += 1
         if acc is None:
-            res.infra_errors.append("trace validation (%s) failed to run: %s" % (name, str(r["error"])[-800:])); return
+            infra.append("trace validation (%s) failed to run: %s" % (name, str(r["error"])[-800:])); break
         if acc:
-            res.count("trace_events", len(events))
-            res.cov["traces_validated_against_impl"] += sum(mult[i] for i in uniq)
-            res.add_tlc(r); return
+            nev += len(events); nexec += sum(mult[i] for i in uniq); tl.append(r); break
         at = min(consumed, len(events) - 1)
         ji = ev_job[at]
         ev = events[at]
@@ -144,12 +133,43 @@ def validate(res, wd, name, jobs, pid, max_rejections=3):
         while start > 0 and events[start]["e"] != "reset":
             start -= 1
         pre = [e for e in events[start + 1:at] if e["e"] in ("call", "ret", "ins", "erase", "fill")][-12:]
-        res.count("trace_events", at)
-        res.cov["traces_validated_against_impl"] += sum(mult[i] for i in uniq if i < ji)
-        res.violations.append(("history of the real B-tree rejected by spec/SortedSetAbs.tla at event %s (preceding events of this history: %s); "
-                               "job %r (%d executions produced this history)" % (short, pre, jobs[ji].header, mult[ji]),
-                               save(wd, "%s_rejected_%d" % (name, ji), [jobs[ji].header])))
+        nev += at; nexec += sum(mult[i] for i in uniq if i < ji)
+        viol.append(("history of the real B-tree rejected by spec/SortedSetAbs.tla at event %s (preceding events of this history: %s); "
+                     "job %r (%d executions produced this history)" % (short, pre, jobs[ji].header, mult[ji]),
+                     save(wd, "%s_rejected_%d" % (name, ji), [jobs[ji].header])))
         uniq = [i for i in uniq if i > ji]
+    return nev, nexec, tl, viol, infra
+
+def validate(res, wd, name, jobs, pid, shards=6):
+    """TLC validates the event histories against SortedSetAbs (SortedSetAbsTrace.tla); identical histories are validated
+    once; the histories are dealt to `shards` TLC processes.  After a rejection the rest of the shard is validated again."""
+    seen = {}; uniq = []; keys = {}
+    for i, j in enumerate(jobs):
+        if not j.complete:
+            continue
+        key = json.dumps(j.events, separators=(",", ":"))
+        keys[i] = key
+        if key not in seen:
+            seen[key] = i; uniq.append(i)
+    mult = collections.Counter(seen[k] for k in keys.values())
+    res.count("distinct_histories", len(uniq))
+    if not uniq:
+        return
+    # contiguous shards balanced by size
+    total = sum(len(keys[i]) for i in uniq)
+    shards = max(1, min(shards, total // 200000 + 1))
+    parts = [[] for _ in range(shards)]; acc = 0
+    for i in uniq:
+        parts[min(shards - 1, acc * shards // total)].append(i); acc += len(keys[i])
+    from concurrent.futures import ThreadPoolExecutor
+    with ThreadPoolExecutor(shards) as ex:
+        outs = list(ex.map(lambda a: _validate_shard(wd, "%s_s%d" % (name, a[0]), jobs, a[1], mult), enumerate(parts)))
+    for nev, nexec, tl, viol, infra in outs:
+        res.count("trace_events", nev)
+        res.cov["traces_validated_against_impl"] += nexec
+        for r in tl:
+            res.add_tlc(r)
+        res.violations.extend(viol); res.infra_errors.extend(infra)
 
 # ---------------------------------------------------------------------------------------------------------------------
 def asc(n, step=10):
@@ -197,14 +217,14 @@ def coop_systematic(res, wd, drv, tier, tree="s3", pid=PID, nproc=6):
 
 def coop_random(res, wd, drv, tier, trees=("s3", "s256"), pid=PID, nrandom=None, nproc=4):
     rng = random.Random(seed() * 101 + 13)
-    n = nrandom or (3000 if tier == "quick" else 60000)
+    n = nrandom or (1600 if tier == "quick" else 40000)
     jobs_in = []
     for i in range(n):
         tree = trees[0] if i % 4 else trees[1]
         small = tree.endswith("3")
         nt = rng.choice([2, 2, 3, 3, 4])
         span = rng.choice([8, 12, 30]) if small else rng.choice([80, 300, 2000])
-        nfill = rng.choice([0, 3, 5, 7, 12, 15, 20, 24]) if small else rng.choice([0, 56, 57, 120, 400])
+        nfill = rng.choice([0, 3, 5, 7, 12, 15, 20, 24]) if small else rng.choice([0, 55, 56, 57, 112, 170])
         order = rng.choice(["asc", "desc", "rnd"])
         fill = rng.sample(range(-span, span * 3), min(nfill, span * 4))
         if order == "asc":
@@ -235,14 +255,14 @@ def coop_random(res, wd, drv, tier, trees=("s3", "s256"), pid=PID, nrandom=None,
 
 def stress(res, wd, drv, tier, trees=("s256", "s3"), pid=PID, runs=None):
     rng = random.Random(seed() * 977 + 5)
-    runs = runs or (16 if tier == "quick" else 120)
+    runs = runs or (10 if tier == "quick" else 80)
     jobs_in = []
     orders = ["sorted", "reverse", "random", "dup", "block"]
     for i in range(runs):
         tree = trees[0] if i % 4 != 3 else trees[1]
         nt = [2, 3, 4, 8, 6, 5, 7, 8][i % 8]
         order = orders[i % len(orders)]
-        total = rng.choice([1500, 3000, 4000]) if tier == "quick" else rng.choice([2000, 6000, 12000])
+        total = rng.choice([800, 1500, 2500]) if tier == "quick" else rng.choice([2000, 6000, 12000])
         count = total // nt if order != "dup" else total // 4
         rng_range = rng.choice([0, 0, 5000, 100000])
         if order == "dup" and rng_range:
